@@ -9,7 +9,9 @@
      ignore_value): it checks the grammar only - strings may hold ill-formed UTF-8 and lone surrogates, numbers are
      not evaluated, nesting is not limited.
    [parse_sch] follows the struct: keys are always read strictly; the value of a known key is read by the reader of
-   its type, the value of any other key is scanned.  [resp_of_body] = parse_sch, nothing but white space after the
+   its type, the value of any other key is scanned; in the positional form (a JSON array, serde's visit_seq) element i
+   is read by the reader of field i (found by the thorough tier: a nested struct inside a positional answer still scans
+   its unknown members leniently).  [resp_of_body] = parse_sch, nothing but white space after the
    value (Deserializer::end), then Json.resp_of_json on the tree.
    Numbers: the grammar is checked; an integer literal without fraction / exponent that fits u64 (or i64 when negative)
    is a JInt, everything else a JFloat (no field of these structs accepts a float, so its value never matters).
@@ -376,7 +378,28 @@ Fixpoint parse_sch (fuel : nat) (sc : schema) (l : bytes) : option (json * bytes
                 | d :: r' => if d =? 125 then Some (JObj [], r') else sch_members f fs (d :: r') []
                 | [] => None
                 end
-              else parse_value fuel l                 (* null, the positional form, or a value of the wrong type *)
+              else if c =? 91 then                    (* the positional form (visit_seq): element i is read as field i *)
+                match skip_ws r with
+                | d :: r' => if d =? 93 then Some (JArr [], r') else sch_elems f fs (d :: r') []
+                | [] => None
+                end
+              else parse_value fuel l                 (* null or a value of the wrong type *)
+          | [] => None
+          end
+      end
+  end
+with sch_elems (fuel : nat) (fs : list (string * schema)) (l : bytes) (acc : list json) : option (json * bytes) :=
+  match fuel with
+  | O => None
+  | S f =>
+      (* elements beyond the last field are an error for serde whatever they hold (and for resp_of_json / pstate_of_json
+         on the tree): they are read strictly here *)
+      match parse_sch f (match fs with (_, sc) :: _ => sc | [] => SLeaf end) l with
+      | None => None
+      | Some (v, r) =>
+          match skip_ws r with
+          | c :: r' => if c =? 44 then sch_elems f (tl fs) r' (v :: acc)
+                       else if c =? 93 then Some (JArr (rev (v :: acc)), r') else None
           | [] => None
           end
       end
